@@ -207,10 +207,12 @@ def e2_programs(tier):
     defaults_sets = [(), (("h0", "b"),), (("h0", "a"),), (("h0", "a"), ("h1", "b")), (("q0", "a"), ("h1", "a"), ("h1", "b"))]
     alias_sets = [(), ("h0",), ("h1", "q0"), ("q0",), ("h0", "h1", "q0", "s0")]
     ord_sets = [(), ("exec",), ("query", "sudo"), ("exec", "instantiate", "migrate"), ("exec", "query", "sudo", "instantiate", "migrate")]
-    combos = list(zip(defaults_sets, alias_sets, ord_sets))
+    # kinds whose message type is given the container attribute serde(deny_unknown_fields)
+    deny_sets = [(), ("exec",), ("query", "sudo"), ("sudo",), ("exec", "query", "sudo")]
+    combos = list(zip(defaults_sets, alias_sets, ord_sets, deny_sets))
     if tier == "thorough":
-        combos = [(d, a, o) for d in defaults_sets for a in alias_sets for o in ord_sets[:3]]
-    for j, (defs, aliases, ords) in enumerate(combos):
+        combos = [(d, a, o, dn) for d in defaults_sets for a in alias_sets for o in ord_sets[:3] for dn in (deny_sets[0], deny_sets[1], deny_sets[4])]
+    for j, (defs, aliases, ords, denies) in enumerate(combos):
         for where in ("contract", "interface"):
             ms = []
             for (k, n) in HANDLERS + [("exec", "h1x")][:0]:
@@ -219,20 +221,21 @@ def e2_programs(tier):
                 # written above sv::msg for h1 / q0, below it for the others
                 ms.append(Method(k, n, args, attrs=sv) if n in ("h1", "q0") else Method(k, n, args, sv_attrs=sv))
             mattrs = tuple("%s, derive(PartialOrd)" % k for k in ords if not (where == "interface" and k in ("instantiate", "migrate")))
+            mattrs += tuple("%s, serde(deny_unknown_fields)" % k for k in denies)
             if where == "contract":
                 c = Contract(methods=tuple([Method("instantiate", "inst", (Arg("a", "u32"),)), Method("migrate", "mig", (Arg("a", "u32"),))] + ms),
                              msg_attrs=mattrs, entry_points="")
             else:
                 i = Interface(name="If0", module="if0", methods=tuple(ms), custom="msg=Empty, query=Empty", attrs=tuple("#[sv::msg_attr(%s)]" % m for m in mattrs))
                 c = Contract(methods=(Method("instantiate", "inst", (Arg("a", "u32"),)),), interfaces=(i,), entry_points="")
-            out.append(("pa%s%d" % (where[0], j), c, where, defs, aliases, ords))
+            out.append(("pa%s%d" % (where[0], j), c, where, defs, aliases, ords, denies))
     return out
 
 
 def run_e2(res, tier):
     progs = e2_programs(tier)
     cp = e2.Corpus("attrs-" + tier)
-    for pid, c, where, defs, aliases, ords in progs:
+    for pid, c, where, defs, aliases, ords, denies in progs:
         arms = e2.basic_glue(c, None)
         asserts = []
         for k in ords:
@@ -244,7 +247,7 @@ def run_e2(res, tier):
     cp.write()
     cp.build()
     cases, exp = [], []
-    for pid, c, where, defs, aliases, ords in progs:
+    for pid, c, where, defs, aliases, ords, denies in progs:
         if pid in cp.failed:
             res.violation({"kind": "compile", "cls": "attr_program_rejected", "pid": pid, "diags": cp.failed[pid][:3],
                            "what": "%s: forwarded attributes (defaults %s, aliases %s, PartialOrd on %s) do not compile: %s" % (pid, defs, aliases, ords, cp.failed[pid][0]["message"])})
@@ -257,18 +260,22 @@ def run_e2(res, tier):
                 "no_b": '{"%s":{"a":1}}' % n,
                 "none": '{"%s":{}}' % n,
                 "alias": '{"al_%s":{"a":1,"b":2}}' % n,
+                "extra": '{"%s":{"a":1,"b":2,"zz":9}}' % n,
             }
             for other in [x[1] for x in HANDLERS if x[0] == k and x[1] != n]:
                 docs["alias_of_" + other] = '{"al_%s":{"a":1,"b":2}}' % other
             for label, d in docs.items():
                 cases.append({"prog": pid, "op": "decode", "kind": k, "part": part, "input": d})
-                exp.append((pid, k, n, label, d, defs, aliases))
+                exp.append((pid, k, n, label, d, defs, aliases, denies))
     obs = cp.run_cases(cases)
     for case, e, o in zip(cases, exp, obs):
-        pid, k, n, label, d, defs, aliases = e
+        pid, k, n, label, d, defs, aliases, denies = e
         res.add(states=1, transitions=1, traces=1, evaluations=1)
         res.mark_nontrivial("e2:%s|%s" % (pid, d))
-        if label.startswith("alias_of_"):
+        if label == "extra":
+            want_ok = k not in denies
+            want_json = '{"%s":{"a":1,"b":2}}' % n
+        elif label.startswith("alias_of_"):
             other = label[len("alias_of_"):]
             want_ok = other in aliases
             want_json = '{"%s":{"a":1,"b":2}}' % other
@@ -285,8 +292,8 @@ def run_e2(res, tier):
         res.outcome((label, want_ok, o.get("ok")))
         if bool(o.get("ok")) != want_ok:
             res.violation({"kind": "attrs_e2", "cls": "effect", "pid": pid, "doc": d, "obs": o, "defaults": defs, "aliases": aliases,
-                           "what": "%s: %s is %s; with defaults on %s and aliases on %s it must be %s" % (
-                               pid, d, "accepted" if o.get("ok") else "rejected", defs, aliases, "accepted" if want_ok else "rejected")})
+                           "what": "%s: %s is %s; with defaults on %s, aliases on %s and deny_unknown_fields on %s it must be %s" % (
+                               pid, d, "accepted" if o.get("ok") else "rejected", defs, aliases, denies, "accepted" if want_ok else "rejected")})
         elif want_ok and o.get("json") != want_json:
             res.violation({"kind": "attrs_e2", "cls": "value", "pid": pid, "doc": d, "obs": o,
                            "what": "%s: %s decodes to %s, expected %s" % (pid, d, o.get("json"), want_json)})
@@ -299,10 +306,10 @@ def run(tier):
     run_e1(res, tier)
     run_e2(res, tier)
     res.cov["rule"] = ("E1: unique marker attributes forwarded with sv::msg_attr to every subset of the six kinds, with sv::attr from every subset of 4 handlers "
-                       "(3 kinds) and written on every subset of 3 arguments (quick: the three dimensions separately plus a sampled cross; thorough: the full "
+                       "(3 kinds) and written on every subset of 3 arguments (quick: the three dimensions separately plus fixed cross sections; thorough: the full "
                        "product 64 x 15 x 8), contract and interface, plus two attributes for one kind/handler (order): every attribute-bearing position of "
                        "the whole expansion (types, variants, fields, impls, fns, parameters, multitest helpers) is scanned; each marker must sit exactly on its "
-                       "designated item.  E2: serde(default) on argument subsets, serde(alias) from handler subsets, derive(PartialOrd) on kind subsets, "
+                       "designated item.  E2: serde(default) on argument subsets, serde(alias) from handler subsets, derive(PartialOrd) and the container attribute serde(deny_unknown_fields) on kind subsets, "
                        "compiled: omitted-field / alias documents accepted exactly where designated, partial_cmp usable on designated kinds. "
                        "non-trivial = program with at least one forwarded attribute / every E2 document")
     res.assumptions += ["the negative side of PartialOrd (not derivable on undesignated kinds) is covered by the E1 scan only"]
